@@ -20,7 +20,8 @@ ERR_CLASSES = {  # class flag -> (known id, accepted exception prefixes = the as
     "cP": ("C03-partial-zip-combine-consumed", ("AttributeError", "PydraStateError: splitter has to be")),
     "cI": ("C03-own-split-inherited-combine", ("ValueError: max()",)),
     "cD": ("C03-diamond-multiplies", ("KeyError", "IndexError")),
-    "cN": ("C03-inner-split-below-upstream-state", ("KeyError", "IndexError", "AssertionError")),
+    # symptoms surveyed over ~1300 sampled graphs of the class (20 seeds): nothing else occurred
+    "cN": ("C03-inner-split-below-upstream-state", ("KeyError", "IndexError", "AssertionError", "ValueError: Operands")),
 }
 
 
